@@ -8,23 +8,29 @@ import (
 // New returns a new Topic
 func New[T any]() *Topic[T] {
 	return &Topic[T]{
-		subscribers: make(map[subscriptionID]chan<- T),
+		subscribers: make(map[subscriptionID]subscriber[T]),
 	}
 }
 
 // NewWithInitial returns a new Topic that is pre-seeded with a last value.
 func NewWithInitial[T any](v T) *Topic[T] {
 	return &Topic[T]{
-		subscribers: make(map[subscriptionID]chan<- T),
+		subscribers: make(map[subscriptionID]subscriber[T]),
 		last:        v,
 		hasLast:     true,
 	}
 }
 
+// subscriber is the Topic side of a Subscription.
+type subscriber[T any] struct {
+	ch   chan<- T
+	done <-chan struct{} // closed when the Subscription starts closing
+}
+
 // Topic is a single topic that subscribers can Subscribe() to
 type Topic[T any] struct {
 	mu          sync.Mutex
-	subscribers map[subscriptionID]chan<- T
+	subscribers map[subscriptionID]subscriber[T]
 	lastID      subscriptionID
 	last        T
 	hasLast     bool
@@ -37,8 +43,13 @@ func (t *Topic[T]) Publish(v T) {
 
 	t.last = v
 	t.hasLast = true
-	for _, ch := range t.subscribers {
-		ch <- v // blocking
+	for _, sub := range t.subscribers {
+		select {
+		case sub.ch <- v: // blocking
+		case <-sub.done:
+			// The subscriber is closing its subscription and waits for our
+			// lock, do not wait for it to receive.
+		}
 	}
 }
 
@@ -73,7 +84,8 @@ func (t *Topic[T]) Subscribe(sendLast bool) *Subscription[T] {
 	t.lastID++
 	id := t.lastID
 
-	t.subscribers[id] = ch
+	done := make(chan struct{})
+	t.subscribers[id] = subscriber[T]{ch: ch, done: done}
 
 	if sendLast && t.hasLast {
 		// Will not block, because the channel is buffered and nothing
@@ -85,6 +97,7 @@ func (t *Topic[T]) Subscribe(sendLast bool) *Subscription[T] {
 		id:    id,
 		topic: t,
 		ch:    ch,
+		done:  done,
 	}
 	return sub
 }
@@ -112,10 +125,10 @@ func (t *Topic[T]) unsubscribeID(id subscriptionID) {
 	t.mu.Lock()
 	defer t.mu.Unlock()
 
-	ch, exists := t.subscribers[id]
+	sub, exists := t.subscribers[id]
 	if !exists {
 		return
 	}
-	close(ch)
+	close(sub.ch)
 	delete(t.subscribers, id)
 }
